@@ -492,16 +492,34 @@ impl UndoOperation for AddFloatingLayer {
     }
 }
 
+/// The size stored in the SAUCE record (`Buffer::set_size` rewrites it together with the buffer size).
+pub(crate) fn get_sauce_size(edit_state: &EditState) -> Option<Size> {
+    edit_state.get_buffer().get_sauce().as_ref().map(|sauce| sauce.buffer_size)
+}
+
+/// Puts the size a SAUCE record carried before a resize back into it.
+fn restore_sauce_size(edit_state: &mut EditState, sauce_size: Option<Size>) {
+    if let Some(sauce_size) = sauce_size {
+        let buffer = edit_state.get_buffer_mut();
+        if let Some(mut sauce) = buffer.set_sauce(None, false) {
+            sauce.buffer_size = sauce_size;
+            buffer.set_sauce(Some(sauce), false);
+        }
+    }
+}
+
 #[derive(Default)]
 pub struct ResizeBuffer {
     orig_size: Size,
+    orig_sauce_size: Option<Size>,
     size: Size,
 }
 
 impl ResizeBuffer {
-    pub fn new(orig_size: impl Into<Size>, size: impl Into<Size>) -> Self {
+    pub fn new(orig_size: impl Into<Size>, orig_sauce_size: Option<Size>, size: impl Into<Size>) -> Self {
         Self {
             orig_size: orig_size.into(),
+            orig_sauce_size,
             size: size.into(),
         }
     }
@@ -514,6 +532,7 @@ impl UndoOperation for ResizeBuffer {
 
     fn undo(&mut self, edit_state: &mut EditState) -> EngineResult<()> {
         edit_state.get_buffer_mut().set_size(self.orig_size);
+        restore_sauce_size(edit_state, self.orig_sauce_size);
         edit_state.set_mask_size();
         Ok(())
     }
@@ -571,14 +590,16 @@ impl UndoOperation for UndoLayerChange {
 #[derive(Default)]
 pub struct Crop {
     orig_size: Size,
+    orig_sauce_size: Option<Size>,
     size: Size,
     layers: Vec<Layer>,
 }
 
 impl Crop {
-    pub fn new(orig_size: impl Into<Size>, size: impl Into<Size>, layers: Vec<Layer>) -> Self {
+    pub fn new(orig_size: impl Into<Size>, orig_sauce_size: Option<Size>, size: impl Into<Size>, layers: Vec<Layer>) -> Self {
         Self {
             orig_size: orig_size.into(),
+            orig_sauce_size,
             size: size.into(),
             layers,
         }
@@ -592,6 +613,7 @@ impl UndoOperation for Crop {
 
     fn undo(&mut self, edit_state: &mut EditState) -> EngineResult<()> {
         edit_state.get_buffer_mut().set_size(self.orig_size);
+        restore_sauce_size(edit_state, self.orig_sauce_size);
         edit_state.set_mask_size();
         mem::swap(&mut edit_state.get_buffer_mut().layers, &mut self.layers);
         Ok(())
